@@ -79,6 +79,12 @@ func (fr *frame) call(b *ssa.BasicBlock, site ssa.Instruction, c *ssa.CallCommon
 			if len(res.ts) > 0 {
 				nh = nh.set("$res:"+cn, asInt(res.ts[0], leaves(rt)[0].Sort))
 			}
+			// further result leaves: lastresn(name, k)
+			for k := 1; k < len(res.ts) && k < 8; k++ {
+				key := fmt.Sprintf("$res:%s:%d", cn, k)
+				x.regKey(key, "Int")
+				nh = nh.set(key, asInt(res.ts[k], leaves(rt)[k].Sort))
+			}
 		}
 		return res, nh
 	}
@@ -137,6 +143,10 @@ func (fr *frame) countMatches(c *ssa.CallCommon, name string) []string {
 func (fr *frame) countCall(c *ssa.CallCommon, name string, args []Val, atypes []types.Type, h Heap) Heap {
 	x := fr.x
 	for _, cn := range fr.countMatches(c, name) {
+		if x.countHits == nil {
+			x.countHits = map[string]int{}
+		}
+		x.countHits[cn]++
 		k := "$cnt:" + cn
 		x.regKey(k, "Int")
 		h = h.set(k, plus(x.hget(h, k), "1"))
@@ -196,6 +206,11 @@ func (fr *frame) call2(b *ssa.BasicBlock, site ssa.Instruction, c *ssa.CallCommo
 	if !c.IsInvoke() && c.StaticCallee() == nil {
 		if p, ok := c.Value.(*ssa.Parameter); ok && fr.pure[p.Name()] {
 			pureKey = "param:" + typeKey(p.Type())
+			args = append([]Val{fr.get(c.Value)}, args...)
+			atypes = append([]types.Type{c.Value.Type()}, atypes...)
+		} else if nt, isNamed := c.Value.Type().(*types.Named); isNamed && fr.pure["type:"+nt.Obj().Name()] {
+			// dynamic call of a function value whose (named) type is declared pure in the contract
+			pureKey = "param:" + typeKey(c.Value.Type())
 			args = append([]Val{fr.get(c.Value)}, args...)
 			atypes = append([]types.Type{c.Value.Type()}, atypes...)
 		} else if fvv, ok := c.Value.(*ssa.FreeVar); ok && fr.pure[fvv.Name()] {
